@@ -235,6 +235,16 @@ class CFG:
         cur = set(facts)
         for n in elems:
             w = written_roots(n)
+            if w and n.is_call() and n.callee in REFINED_KILLS:
+                # the callee's body was analysed: it only changes the listed aspects of its by-reference argument
+                idx, aspects = REFINED_KILLS[n.callee]
+                args = n.call_args()
+                if idx < len(args):
+                    from .tree import root_of_lvalue
+
+                    r = root_of_lvalue(args[idx])
+                    cur = {f for f in cur if not (r in f[2] and any(a in f[0] for a in aspects))}
+                    w = w - {r}
             if w:
                 if "?" in w:
                     cur = set()
@@ -282,6 +292,9 @@ class CFG:
 # post-condition summaries: callables node -> iterable of facts (key, truth, roots) that hold right after the
 # element was evaluated.  Registered by rule modules (slots filled from the repo's API documentation).
 POST_FACTS = []
+# callee qn -> (index of the by-reference argument, substrings of fact keys it can invalidate); filled by rule modules from
+# an analysis of the callee's body in the current source
+REFINED_KILLS = {}
 
 
 def atoms(cond, truth):
